@@ -370,8 +370,10 @@ fn small_scope(ctx: &mut Ctx, n: usize, menu: &[(usize, u8)]) {
     // small integer bases B' = [[g, f], [G, F]] (full rank; the NTRU equation is irrelevant for I2)
     let bases: Vec<[Vec<i64>; 4]> = if n == 2 {
         vec![[vec![3, 1], vec![1, -2], vec![-1, 4], vec![5, 2]], [vec![7, -2], vec![0, 3], vec![2, 2], vec![-1, 6]]]
-    } else {
+    } else if n == 4 {
         vec![[vec![5, 1, 0, -2], vec![1, -3, 2, 0], vec![-2, 0, 6, 1], vec![0, 4, -1, 7]]]
+    } else {
+        vec![[vec![9, 1, 0, -2, 1, 0, 3, -1], vec![1, -3, 2, 0, 0, 1, -1, 2], vec![-2, 0, 6, 1, -1, 2, 0, 1], vec![0, 4, -1, 11, 2, 0, -3, 1]]]
     };
     let sg = 8.0; // any sigma: leaves are sigma/||b~||; widths are kept inside [1.0, 1.8205] by scaling below
     let mut t_all = Tally::default();
@@ -503,8 +505,10 @@ pub fn run(tier: Tier) {
     small_scope(&mut ctx, 2, &full);
     if tier.thorough() {
         small_scope(&mut ctx, 4, &full);
+        small_scope(&mut ctx, 8, &[(0, 0), (1, 1), (2, 0)]);
     } else {
         small_scope(&mut ctx, 4, &[(0, 0), (1, 1), (2, 0)]);
+        small_scope(&mut ctx, 8, &[(0, 1), (1, 0)]);
     }
     ctx.sample(json!({"invariant":"I2","call":"r-th sampler call of an attempt <-> Gram-Schmidt row k = 2(n-1-floor(r/2)) + (r mod 2) of the rows X^brv(i)(g,f), X^brv(i)(G,F)","centre":"<target - sum_{later calls} z r, b~_k> / ||b~_k||^2"}));
     ctx.assume("the literal statement (E<s,u> = 0, E<s,u>^2 = sigma^2 along all directions) is NOT decided directly: it follows from I1-I3 and C09 by the Klein/GPV nearest-plane theorem, which is mathematics and not checked here");
